@@ -7,7 +7,7 @@ Import ListNotations.
 Local Open Scope string_scope.
 
 Example tie_C20_raises_pulse_sequence__parse_args :
-  raises_pulse_sequence__parse_args = [("TypeError", "not hasattr(dt, '__len__') or isinstance(dt, (str, bytes))"); ("ValueError", "not np.isreal(dt).all()"); ("ValueError", "(dt < 0).any()"); ("ValueError", "control_args[0].shape[-2:] != noise_args[0].shape[-2:]"); ("ValueError", "not hasattr(basis, 'btype')"); ("ValueError", "basis.shape[1:] != (d, d)")].
+  raises_pulse_sequence__parse_args = [("TypeError", "not hasattr(dt, '__len__') or isinstance(dt, (str, bytes))"); ("ValueError", "dt.size == 0"); ("ValueError", "not np.isreal(dt).all()"); ("ValueError", "(dt < 0).any() or not np.isfinite(dt).all()"); ("ValueError", "control_args[0].shape[-2:] != noise_args[0].shape[-2:]"); ("ValueError", "not hasattr(basis, 'btype')"); ("ValueError", "basis.shape[1:] != (d, d)")].
 Proof. reflexivity. Qed.
 Example tie_C20_raises_pulse_sequence__parse_Hamiltonian :
   raises_pulse_sequence__parse_Hamiltonian = [("TypeError", "not isinstance(H, (list, tuple))"); ("TypeError", "not all((isinstance(item, (list, tuple)) for item in H))"); ("TypeError", "not args"); ("TypeError", "not all((hasattr(coeff, '__len__') for coeff in coeffs))"); ("ValueError", "len(set(identifiers)) != len(identifiers)"); ("ValueError", "not all((len(coeff) == n_dt for coeff in coeffs))")].
@@ -31,10 +31,10 @@ Example tie_C20_raises_pulse_sequence_concatenate :
   raises_pulse_sequence_concatenate = [("TypeError", "not hasattr(pulses[0], 'c_opers')"); ("ValueError", "calc_filter_function"); ("ValueError", "calc_pulse_correlation_FF")].
 Proof. reflexivity. Qed.
 Example tie_C20_raises_pulse_sequence_concatenate_periodic :
-  raises_pulse_sequence_concatenate_periodic = [("TypeError", "not hasattr(pulse, 'c_opers')"); ("TypeError", "except TypeError")].
+  raises_pulse_sequence_concatenate_periodic = [("TypeError", "not hasattr(pulse, 'c_opers')"); ("TypeError", "except TypeError"); ("ValueError", "repeats < 1")].
 Proof. reflexivity. Qed.
 Example tie_C20_raises_pulse_sequence_extend :
-  raises_pulse_sequence_extend = [("ValueError", "except ValueError"); ("ValueError", "not all((pulse.d == d_per_qubit for pulse in single_qubit_pulses))"); ("ValueError", "not all((pulse.d == d_per_qubit ** len(qubits) for pulse, qubits in zip(multi_qubit_pulses, multi_qubit_idx)))"); ("ValueError", "not util.all_array_equal((pulse.dt for pulse in pulses))"); ("ValueError", "len(active_qubits) != len(active_qubits_list)"); ("ValueError", "last_qubit + 1 > N"); ("ValueError", "not equal_omega"); ("ValueError", "cache_diagonalization is False and additional_noise_Hamiltonian is not None"); ("ValueError", "add_n_opers.shape[1:] != (d, d)"); ("ValueError", "any((n_oper_id in n_oper_identifiers for n_oper_id in add_n_oper_id))"); ("ValueError", "len(set(c_oper_identifiers)) != len(c_oper_identifiers) or len(set(n_oper_identifiers)) != len(n_oper_identifiers)")].
+  raises_pulse_sequence_extend = [("TypeError", "not all((hasattr(pls, 'c_opers') for pls in pulses))"); ("ValueError", "except ValueError"); ("TypeError", "int(qubit) != qubit"); ("ValueError", "not all((pulse.d == d_per_qubit for pulse in single_qubit_pulses))"); ("ValueError", "not all((pulse.d == d_per_qubit ** len(qubits) for pulse, qubits in zip(multi_qubit_pulses, multi_qubit_idx)))"); ("ValueError", "not util.all_array_equal((pulse.dt for pulse in pulses))"); ("ValueError", "len(active_qubits) != len(active_qubits_list)"); ("ValueError", "last_qubit + 1 > N"); ("ValueError", "not equal_omega"); ("ValueError", "cache_diagonalization is False and additional_noise_Hamiltonian is not None"); ("ValueError", "add_n_opers.shape[1:] != (d, d)"); ("ValueError", "any((n_oper_id in n_oper_identifiers for n_oper_id in add_n_oper_id))"); ("ValueError", "len(set(c_oper_identifiers)) != len(c_oper_identifiers) or len(set(n_oper_identifiers)) != len(n_oper_identifiers)")].
 Proof. reflexivity. Qed.
 Example tie_C20_raises_pulse_sequence_PulseSequence_get_pulse_correlation_control_matrix :
   raises_pulse_sequence_PulseSequence_get_pulse_correlation_control_matrix = [("util.CalculationError", "")].
